@@ -153,11 +153,11 @@ def _run(repo, names=(), verbose=False):
         short = full.split('.')[-1]
         if short == 'bridge_env' or not mi.functions:
             continue
-        py = _cpython(short, mi.path)
         for fname in sorted(mi.functions):
             if not fname.startswith('t_') or (names and not any(n in f'{short}.{fname}' for n in names)):
                 continue
             try:
+                py = _cpython(short, mi.path)        # a fresh module per function: module- and class-level state does not leak between them
                 want = ('value', plain(getattr(py, fname)()))
             except BaseException as e:      # noqa: BLE001 - the corpus function's own outcome
                 want = ('raise', type(e).__name__)
